@@ -210,9 +210,19 @@ def call_error_unit(ctx):
     if kind == "ret":
         ctx.check("CallError.call-is-the-node;message-names-the-function-and-carries-the-symbolic-traceback",
                   bool(val.call is node and "symbolic call to" in str(val) and "Symbolic traceback (most recent call last):" in str(val)))
-        e = ValueError("x")
-        ce = errors.create_chained_call_error(node, e)
-        ctx.check("create_chained_call_error:cause-is-the-very-exception", bool(ce.call is node and ce.__cause__ is e))
+        class Falsy(Exception):
+            def __len__(self):
+                return 0
+
+        prior = KeyError("earlier")
+        chained = ValueError("with a cause of its own")
+        chained.__cause__ = prior
+        for what, e in (("ordinary", ValueError("x")), ("falsy", Falsy()), ("already-chained", chained),
+                        ("a-CallError-of-another-call(nested-run)", errors.CallError(graph.Call(fn, stack_frame=SF))), ("a-NodeError", errors.NodeError(graph.Call(fn, stack_frame=SF)))):
+            ce = errors.create_chained_call_error(node, e)
+            ctx.check(f"create_chained_call_error:a-new-CallError-for-the-given-node-whose-cause-is-the-very-exception[{what}]",
+                      bool(type(ce) is errors.CallError and ce is not e and ce.call is node and ce.__cause__ is e), props=["C06", "C19", "C15"])
+        ctx.check("create_chained_call_error:the-exception's-own-cause-is-left-alone", bool(chained.__cause__ is prior))
     ne = errors.NodeError(node)
     ctx.check("NodeError(node).node-is-the-node", bool(ne.node is node))
     return "ok"
@@ -427,4 +437,53 @@ unit("tracebacks.native[bounded]", props=["C19"],
                 ("_transformations/caching.py", "_get_stale_nodes.<locals>.process_with_callbacks"), ("_transformations/caching.py", "_add_value_store"), ("_run.py", "run")],
      assumptions=["bounded stand-in: see the script in contracts/tracebacks.py"], min_obligations=2, kind="bounded")(_c19_bounded)
 
-REPLAYS = [("tracebacks.CallError*", _replay), ("tracebacks.native*", _replay19b), ("tracebacks.*", _replay19)]
+# what a call may raise (C06 excepts none of them): an ordinary / falsy / already-chained exception, or the CallError of a nested run that failed
+NESTED_SCRIPT = """
+import sys, uberjob
+bad = []
+class Falsy(Exception):
+    def __len__(self): return 0
+def mk_raisers():
+    raised = {}
+    def ordinary(): raised["e"] = ValueError("x"); raise raised["e"]
+    def falsy(): raised["e"] = Falsy(); raise raised["e"]
+    def chained():
+        try: {}["k"]
+        except KeyError as k:
+            raised["e"] = ValueError("chained"); raised["e"].__cause__ = k; raise raised["e"]
+    def inner_boom(): raise ValueError("inner")
+    def nested():
+        p = uberjob.Plan(); c = p.call(inner_boom)
+        try: return uberjob.run(p, output=c, progress=None)
+        except BaseException as e: raised["e"] = e; raise
+    return raised, [ordinary, falsy, chained, nested]
+for workers in (1, 3):
+    raised, fns = mk_raisers()
+    for fn in fns:
+        started = []
+        def down(x): started.append("down"); return x
+        plan = uberjob.Plan(); node = plan.call(fn); d = plan.call(down, node)
+        raised.clear()
+        try:
+            r = uberjob.run(plan, output=d, progress=None, max_workers=workers)
+            bad.append((fn.__name__, "run returned", r)); continue
+        except uberjob.CallError as e: err = e
+        except BaseException as e: bad.append((fn.__name__, "run raised", repr(e))); continue
+        if err.call is not node: bad.append((fn.__name__, "CallError.call is not the call of this plan that raised", err.call))
+        if err.__cause__ is not raised.get("e"): bad.append((fn.__name__, "__cause__ is not the object the call raised", repr(err.__cause__)))
+        if started: bad.append((fn.__name__, "a downstream call started"))
+for b in bad: print("C06 violated:", b)
+print("ok" if not bad else "failed"); sys.exit(1 if bad else 0)
+"""
+
+
+def _replay_nested(ob):
+    import os
+
+    from ujvc.z3env import REPO_SRC
+
+    p = __import__('ujvc.units', fromlist=['run_native_p']).run_native_p(["/venv/bin/python", "-c", NESTED_SCRIPT], env=dict(os.environ, PYTHONPATH=REPO_SRC), timeout=120)
+    return {"reproduced": p.returncode == 1, "detail": (p.stdout + p.stderr)[-2000:], "script": NESTED_SCRIPT}
+
+
+REPLAYS = [("tracebacks.CallError/create_chained_call_error*", _replay_nested), ("tracebacks.CallError*", _replay), ("tracebacks.native*", _replay19b), ("tracebacks.*", _replay19)]
